@@ -253,6 +253,18 @@ def run_impl(op, inp):
                 ac.save_to_jsonfile(first)
                 # 2. attestation gathering
                 import admin.ledger_attestation as la
+                if inp.get("stale"):
+                    old = dict(inp)
+                    old.update(inp["stale"])
+                    simdev.reset([], [], LedgerGenuine(rng, old).exchange)
+                    earlier = os.path.join(d, "earlier.json")
+                    with _silence():
+                        la.do_attestation(types.SimpleNamespace(
+                            output_file_path=earlier, attestation_certificate_file_path=first,
+                            attestation_ud_source=old["ud"], pin="1234567a", any_pin=False, no_exec=False,
+                            verbose=False))
+                    first = earlier
+                    simdev.reset([], [], LedgerGenuine(rng, inp).exchange)
                 opts = types.SimpleNamespace(output_file_path=out_path, attestation_certificate_file_path=first,
                                              attestation_ud_source=inp["ud"], pin="1234567a", any_pin=False,
                                              no_exec=False, verbose=False)
@@ -349,6 +361,17 @@ def ledger_case(rng, alter):
             inp[alter] = flip(rng, inp[alter])
         elif alter == "root":
             inp["root_pub"] = certgen.pub65(certgen.rand_key(rng)).hex()
+    if alter is None and rng.random() < 0.5:
+        # the same device attested earlier, in another state (other UD value, blockchain state): the file of that
+        # run is what this run starts from (refreshing an attestation)
+        ud0 = rb(rng, 32)
+        ui0 = ui_msg[:10] + ud0 + ui_msg[42:]
+        s0 = (b"HSM:SIGNER:5." + bytes([48 + rng.randrange(10)]) + pkh) if legacy else c08.powhsm_msg(rng, pkh)
+        inp["stale"] = {"ud": ud0.hex(), "ui_msg": ui0.hex(), "signer_msg": s0.hex(),
+                        "ui_sig": certgen.sign(certgen.tweaked_priv(att, ui_hash.hex()), ui0, rng).hex(),
+                        "signer_sig": certgen.sign(certgen.tweaked_priv(att, signer_hash.hex()), s0, rng).hex(),
+                        "ui_pages": [[m, c.hex()] for m, c in pages(rng, ui0, rng.choice([1, 2, 3]))],
+                        "signer_pages": [[m, c.hex()] for m, c in pages(rng, s0, rng.choice([1, 2]))]}
     um = bytes.fromhex(inp.get("ui_msg_sent", inp["ui_msg"]))
     sm = bytes.fromhex(inp.get("signer_msg_sent", inp["signer_msg"]))
     inp["ui_pages"] = [[m, c.hex()] for m, c in pages(rng, um, rng.choice([1, 1, 2, 3, 4]))]
@@ -357,7 +380,7 @@ def ledger_case(rng, alter):
         inp["signer_msg"] = inp["signer_msg"]
         if "signer_msg_sent" in inp:
             inp["signer_msg"], inp["signer_msg_genuine"] = inp["signer_msg_sent"], inp["signer_msg"]
-    return Case(OP, inp, stream="ledger-" + ("genuine" if alter is None else "altered:" + alter))
+    return Case(OP, inp, stream="ledger-" + (("refresh" if "stale" in inp else "genuine") if alter is None else "altered:" + alter))
 
 
 def sgx_case(rng, alter):
